@@ -64,7 +64,7 @@ class Ctx:
 
     # ------------------------------------------------------------------ TLC
     def tlc(self, module, cfg, **kw):
-        kw.setdefault("workers", 16)
+        kw.setdefault("workers", int(os.environ.get("VERIF_TLC_WORKERS", "16")))
         try:
             r = tlcmod.run_tlc(module, cfg, self.work, **kw)
         except tlcmod.TLCError as e:
